@@ -306,6 +306,55 @@ type smAn struct {
 	hostTypes                                                             map[string]bool
 	knownFuncs                                                            map[string]bool
 	nfresh                                                                int
+	doWhile                                                               bool // the main loop tests the end of input in its header (a `continue` passes the test too)
+}
+
+// isDoWhileOnEOF recognises `for v := false; !v; v = X.eof` and `for v := true; v; v = !X.eof` with X the input cursor.
+func (a *smAn) isDoWhileOnEOF(fs *ast.ForStmt) bool {
+	init, ok := fs.Init.(*ast.AssignStmt)
+	if !ok || init.Tok != token.DEFINE || len(init.Lhs) != 1 || len(init.Rhs) != 1 {
+		return false
+	}
+	v, ok := init.Lhs[0].(*ast.Ident)
+	if !ok {
+		return false
+	}
+	iv, ok := init.Rhs[0].(*ast.Ident)
+	if !ok || (iv.Name != "true" && iv.Name != "false") {
+		return false
+	}
+	startTrue := iv.Name == "true"
+	isV := func(e ast.Expr) bool {
+		id, ok := ast.Unparen(e).(*ast.Ident)
+		return ok && a.obj(id) != nil && a.obj(id) == a.info.Defs[v]
+	}
+	not := func(e ast.Expr) (ast.Expr, bool) {
+		u, ok := ast.Unparen(e).(*ast.UnaryExpr)
+		if !ok || u.Op != token.NOT {
+			return nil, false
+		}
+		return u.X, true
+	}
+	isEOF := func(e ast.Expr) bool {
+		sel, ok := ast.Unparen(e).(*ast.SelectorExpr)
+		if !ok || sel.Sel.Name != "eof" {
+			return false
+		}
+		tv, ok := a.info.Types[sel.X]
+		return ok && namedOf(tv.Type) == "inputString"
+	}
+	post, ok := fs.Post.(*ast.AssignStmt)
+	if !ok || post.Tok != token.ASSIGN || len(post.Lhs) != 1 || len(post.Rhs) != 1 || !isV(post.Lhs[0]) {
+		return false
+	}
+	if startTrue {
+		// v; v = !eof
+		x, neg := not(post.Rhs[0])
+		return isV(fs.Cond) && neg && isEOF(x)
+	}
+	// !v; v = eof
+	c, neg := not(fs.Cond)
+	return neg && isV(c) && isEOF(post.Rhs[0])
 }
 
 type smModel struct {
@@ -680,13 +729,24 @@ func buildSMAn(c *Ctx) (*smAn, error) {
 	// main loop: the for statement whose body contains a switch on a State-typed local
 	for i, st := range a.fd.Body.List {
 		fs, ok := st.(*ast.ForStmt)
-		if !ok || fs.Cond != nil || fs.Init != nil || fs.Post != nil {
+		if !ok {
 			continue
+		}
+		doWhile := false
+		if fs.Cond != nil || fs.Init != nil || fs.Post != nil {
+			// `for done := false; !done; done = input.eof` (or `more := true; more; more = !input.eof`): the body runs
+			// once, then again as long as the end of the input has not been reached - the same loop as
+			// `for { …; if input.eof { break } }`, except that a `continue` also passes the end-of-input test
+			if !a.isDoWhileOnEOF(fs) {
+				continue
+			}
+			doWhile = true
 		}
 		for _, bs := range fs.Body.List {
 			if sw, ok := bs.(*ast.SwitchStmt); ok && sw.Tag != nil {
 				if id, ok := sw.Tag.(*ast.Ident); ok && types.Identical(a.obj(id).Type(), stateT) {
 					a.loop, a.sw, a.stateObj = fs, sw, a.obj(id)
+					a.doWhile = doWhile
 					a.prologue = a.fd.Body.List[:i]
 					// after the loop: a single `return url, nil`
 					rest := a.fd.Body.List[i+1:]
@@ -704,7 +764,11 @@ func buildSMAn(c *Ctx) (*smAn, error) {
 	}
 	// loop head: r := input.nextCodePoint(); loop tail: if input.eof { break }
 	body := a.loop.Body.List
-	if len(body) != 3 {
+	if a.doWhile {
+		if len(body) != 2 {
+			a.problems = append(a.problems, fmt.Sprintf("main loop body has %d statements, expected [advance, switch]", len(body)))
+		}
+	} else if len(body) != 3 {
 		a.problems = append(a.problems, fmt.Sprintf("main loop body has %d statements, expected [advance, switch, eof-exit]", len(body)))
 	}
 	if as, ok := body[0].(*ast.AssignStmt); ok && len(as.Lhs) == 1 && len(as.Rhs) == 1 {
@@ -720,7 +784,7 @@ func buildSMAn(c *Ctx) (*smAn, error) {
 	if a.inputObj == nil {
 		return nil, fmt.Errorf("BasicParser: loop head `r := input.nextCodePoint()` not found")
 	}
-	tailOK := false
+	tailOK := a.doWhile
 	if ifs, ok := body[len(body)-1].(*ast.IfStmt); ok && ifs.Else == nil && ifs.Init == nil && len(ifs.Body.List) == 1 {
 		if sel, ok := ifs.Cond.(*ast.SelectorExpr); ok && a.isIdent(sel.X, a.inputObj) && sel.Sel.Name == "eof" {
 			if br, ok := ifs.Body.List[0].(*ast.BranchStmt); ok && br.Tok == token.BREAK && br.Label == nil {
@@ -972,6 +1036,13 @@ func (a *smAn) call(call *ast.CallExpr, s *pst) {
 			recv = sel.X
 		}
 	}
+	// the cursor handed to a function: whatever was known about its position is gone
+	for _, arg := range call.Args {
+		if a.isIdent(ast.Unparen(arg), a.inputObj) {
+			s.eofSynced = false
+			s.invalidate("input.")
+		}
+	}
 	// main cursor operations
 	if recv != nil && a.isIdent(recv, a.inputObj) {
 		cls := a.cursorClass[callee.Name()]
@@ -1076,6 +1147,50 @@ func (a *smAn) resolveSet(e ast.Expr, s *pst) string {
 	if id, ok := e.(*ast.Ident); ok {
 		if v, ok := s.setVars[a.obj(id)]; ok {
 			return v
+		}
+	}
+	// a set selector: a function of the module with one set parameter that hands back that set, or a Set(…)
+	// extension of it (the '%' of the single-percent option) - it names the set it was given
+	if call, ok := e.(*ast.CallExpr); ok {
+		if callee, _ := typeutil.Callee(a.info, call).(*types.Func); callee != nil && callee.Pkg() == a.pkg.Types {
+			sig := callee.Type().(*types.Signature)
+			if sig.Results().Len() == 1 && namedOf(sig.Results().At(0).Type()) == "PercentEncodeSet" {
+				idx, n := -1, 0
+				for i := 0; i < sig.Params().Len(); i++ {
+					if namedOf(sig.Params().At(i).Type()) == "PercentEncodeSet" {
+						idx = i
+						n++
+					}
+				}
+				if fd := a.declOf(callee); fd != nil && fd.Body != nil && n == 1 && idx < len(call.Args) {
+					param := sig.Params().At(idx)
+					all, any := true, false
+					ast.Inspect(fd.Body, func(nd ast.Node) bool {
+						if _, isLit := nd.(*ast.FuncLit); isLit {
+							all = false
+							return false
+						}
+						r, ok := nd.(*ast.ReturnStmt)
+						if !ok || len(r.Results) != 1 {
+							return true
+						}
+						any = true
+						x := ast.Unparen(r.Results[0])
+						if c2, ok := x.(*ast.CallExpr); ok {
+							if sel, ok := c2.Fun.(*ast.SelectorExpr); ok && sel.Sel.Name == "Set" {
+								x = ast.Unparen(sel.X)
+							}
+						}
+						if id, ok := x.(*ast.Ident); !ok || a.info.Uses[id] != types.Object(param) {
+							all = false
+						}
+						return true
+					})
+					if all && any {
+						return a.resolveSet(call.Args[idx], s)
+					}
+				}
+			}
 		}
 	}
 	return a.str(e)
@@ -1937,7 +2052,9 @@ func (a *smAn) assign(x *ast.AssignStmt, s *pst) {
 			if r != nil && namedOf(o.Type()) == "PercentEncodeSet" {
 				s.setVars[o] = a.resolveSet(r, s)
 			}
-			if r != nil && x.Tok == token.DEFINE && o != a.ovObj && len(x.Lhs) == len(x.Rhs) && a.pureExpr(r) && !a.mentionsCursorState(r) {
+			// (a definition that reads the cursor - `atEnd := input.eof || …` - holds until the cursor is moved or handed
+			// to a function: invalidate("input.") drops it then)
+			if r != nil && x.Tok == token.DEFINE && o != a.ovObj && len(x.Lhs) == len(x.Rhs) && a.pureExpr(r) {
 				s.defs[o] = r
 				if types.Identical(o.Type().Underlying(), types.Typ[types.Bool]) {
 					s.boolDefs[o] = r
@@ -2233,7 +2350,7 @@ func (a *smAn) explore(ctx smContext) (paths []*smPath, reach []string) {
 			}
 		}
 		for _, s := range a.walk(body, []*pst{st0}) {
-			if s.brk == "continue" && s.rclass["EOF"] {
+			if s.brk == "continue" && s.rclass["EOF"] && !a.doWhile {
 				// a `continue` while the code point may be EOF skips the loop's eof exit (otherwise the next round
 				// starts by advancing the cursor, like any other)
 				s.path.Continue = true
